@@ -363,7 +363,7 @@ def bounded_readback(pid, tier, seed):
     distinct = set()
     findings = Findings()
     samples = []
-    values = ["plain", "with space", "café", "a,b", "[brackets]", "x y,z"]
+    values = ["plain", "with space", "café", "a,b", "[brackets]", "x y,z", "trailing ", " leading"]
     for v in values:
         vclass = _vclass(v)
         conds = [c for c in condition_forms(v) if c[0] not in ("header-name",)]
